@@ -398,6 +398,57 @@ def cast_cases(int_types, defect=None):
     return cases
 
 
+def rounding_values(mant):
+    """integers around the midpoints between adjacent floats with `mant` significand bits: for every binade 2^e that still
+    fits u64, the midpoint above a neighbour with even and with odd last bit, and the integers just below / above it
+    (the tie goes to even; one above the tie must round up - also when the value is first rounded to a wider float)"""
+    vals = []
+    for e in range(mant + 1, 64):
+        ulp = 1 << (e - mant + 1)
+        for k in (0, 1, 2, 5):
+            q = (1 << e) + k * ulp
+            mid = q + ulp // 2
+            for d in (-1, 0, 1):
+                n = mid + d
+                if n < (1 << 64):
+                    vals.append(n)
+    return vals
+
+
+def rounding_cases():
+    """integer -> float at the rounding boundaries, for run-time integers and for integer *literals* that are typed as a
+    float directly (annotation, cast of the literal, inside a comptime block, negated)"""
+    cases = []
+    for fn, mant, emax in (("f32", 24, 127), ("f64", 53, 1023)):
+        vals = rounding_values(mant)
+        pr = "pf32" if fn == "f32" else "pf64"
+        bits = f32_bits if fn == "f32" else f64_bits
+        exp = "".join(f"{sbits(bits(int_to_float_exact(n, mant, emax)))}\n" for n in vals)
+        h = f"rc_u64_{fn}"
+        forms = {
+            "runtime-u64": (f"{h} :: (a: u64) -> {fn} {{ {fn}.(a) }}\n", lambda n: f"{pr}({h}({n}));"),
+            "literal-annotated": ("", lambda n: f"{{ x : {fn} = {n}; {pr}(x); }}"),
+            "literal-cast": ("", lambda n: f"{pr}({fn}.({n}));"),
+            "literal-argument": (f"rid_{fn} :: (a: {fn}) -> {fn} {{ a }}\n", lambda n: f"{pr}(rid_{fn}({n}));"),
+            "literal-in-comptime": ("", lambda n: f"{pr}(comptime {{ {fn}.({n}) }});"),
+        }
+        for form, (decls, stmt) in forms.items():
+            # comptime blocks are slow to evaluate one by one: every third value
+            vs = vals if form != "literal-in-comptime" else vals[::3]
+            ex = exp if form != "literal-in-comptime" else "".join(exp.splitlines(True)[::3])
+            cases.append(Case(f"round/{fn}/{form}", "\n".join(stmt(n) for n in vs), ex, decls, meta={"from": "u64", "to": fn}))
+        neg = [n for n in vals if n <= (1 << 63)]
+        nexp = "".join(f"{sbits(bits(int_to_float_exact(-n, mant, emax)))}\n" for n in neg)
+        cases.append(Case(f"round/{fn}/negated-literal-annotated", "\n".join(f"{{ x : {fn} = -{n}; {pr}(x); }}" for n in neg), nexp, "",
+                          meta={"from": "i64", "to": fn}))
+        hi = f"rc_i64_{fn}"
+        neg2 = [n for n in neg if n < (1 << 63)]
+        cases.append(Case(f"round/{fn}/runtime-i64-negative", "\n".join(f"{pr}({hi}(-{n}));" for n in neg2),
+                          "".join(f"{sbits(bits(int_to_float_exact(-n, mant, emax)))}\n" for n in neg2),
+                          f"{hi} :: (a: i64) -> {fn} {{ {fn}.(a) }}\n", meta={"from": "i64", "to": fn}))
+    return cases
+
+
 def implicit_cases(int_types):
     """implicit widening: offered only where the language accepts it (acceptance itself is C12's)"""
     cases = []
@@ -461,7 +512,7 @@ def run(tier, seed):
     quick = tier == "quick"
     runner = core.Runner("c08", batch_size=12, prelude=core.PRELUDE + HELPERS)
     types = list(INT_TYPES)  # every width in both tiers (a seeded change that only touched 16-bit comptime results slipped through the 8/32/64/128 quick selection)
-    cases = int_cases(types, comptime=True) + float_cases() + cast_cases(INT_TYPES)
+    cases = int_cases(types, comptime=True) + float_cases() + cast_cases(INT_TYPES) + rounding_cases()
     optional = implicit_cases(INT_TYPES)
     evaluations = sum(c.expected.count("\n") for c in cases)
     mism = runner.run(cases)
